@@ -13,6 +13,15 @@ CLAIMED = {
     ),
 }
 
+CLAIMED["C16"] = dict(
+    text="Unbounded proof of Entry.__init__ (both call shapes), value, infos, is_infinite and Entry.update from the real AST: for every history, "
+         "policy pair and candidate batch the value is the optimum of the old value and the candidates and the tag set is exactly (ALL) / a singleton "
+         "subset of (ANY) / empty (NONE) the tags of optimal candidates; relational loop invariants with quantifiers, no bound on history length. "
+         "Entry.combine, Entry.__iter__ and the Table / proxy classes: see level_note.",
+    note="Trusted: pyvc encoding; z3/cvc5; 'tagged' means truthy info; infinity.inf modelled as a three-constructor datatype (float inf identified with inf). "
+         "Table / TableProxy / EntryProxy are covered by the bounded stand-in only until their contracts are discharged (listed in the evidence).",
+)
+
 NOT_APPLICABLE = {
     "C14": "float layout geometry and a two-run (orientation) relation over 360 lines of dict-state code: no contract within reach decides it (DESIGN.md section 5)",
     "C09": "metamorphic / cross-process relations between runs; a functional contract speaks about one call (DESIGN.md section 5)",
